@@ -42,7 +42,7 @@ def check(tier, seed, V, facts, uni_path):
     tag = f"c04_{tier}"
     os.makedirs(os.path.join(WORK, tag), exist_ok=True)
     cfg = os.path.join(WORK, tag, "mc.cfg")
-    write_cfg(cfg, {"UsizeBytes": 8, "ZstUnit": 1, "VLevel": 1, "TypeSet": "small1" if quick else "quick1"},
+    write_cfg(cfg, {"UsizeBytes": 8, "ZstUnit": 1, "TupleRangeConstTrue": False, "VLevel": 1, "TypeSet": "small1" if quick else "quick1"},
               invariants=["Interchangeable", "EmitConfusions"])
     r = tlc("MC_Hash", cfg, tag, workers=8, timeout=3000)
     if not r.ok:
